@@ -62,6 +62,14 @@ Theorem C01_javadoc_meta : forall d nm v v' dd dd' after,
   meta_rewrite d ((meta_a ++ nm ++ meta_b) ++ v' ++ 34 :: 62 :: after).
 Proof. exact javadoc_meta_variants. Qed.
 
+(* whole documents: variants whose lines are indistinguishable for the loop inside the header window (doc_var:
+   same validity, terminator, written text, "changed" and end-of-header verdicts) and identical after it are
+   rewritten to the same bytes *)
+Theorem C01_javadoc_document : forall epoch x x' y hm y' hm',
+  doc_var epoch true 0 (split_lines x []) (split_lines x' []) ->
+  javadoc_process epoch x = Ok (y, hm) -> javadoc_process epoch x' = Ok (y', hm') -> hm = true -> y = y' /\ hm' = true.
+Proof. exact javadoc_variants. Qed.
+
 (* pyc: same header, payloads that the reader turns into the same object tree - wherever reference flags
    and back-references were placed - give the same bytes *)
 Theorem C01_pyc : forall x x' ver hl v rest r rest' r',
@@ -89,5 +97,6 @@ Print Assumptions C01_zip_member.
 Print Assumptions C01_zip.
 Print Assumptions C01_javadoc_stamp.
 Print Assumptions C01_javadoc_meta.
+Print Assumptions C01_javadoc_document.
 Print Assumptions C01_pyc.
 Print Assumptions C01_ar_example.
